@@ -8,7 +8,7 @@ from .c01 import model as c01_model
 
 NBATCH = {'quick': 16, 'thorough': 64}
 BUDGET_S = {'quick': 80, 'thorough': 180}
-PER_BATCH = {'quick': 30, 'thorough': 450}
+PER_BATCH = {'quick': 90, 'thorough': 1500}
 FLOORS = {
     'quick': {'distinct_nontrivial': 800, 'feature:ambiguous': 800, 'feature:cyclic-sound': 100,
               'feature:ambig-through-inline': 20, 'feature:ambig-through-expand1': 20,
@@ -125,8 +125,8 @@ def run_case(ctx, G, text, rg, l, lexer, opts, w, family, cyclic, named):
         ctx.judged([text, lexer, opts, w], True)
         return
     tree = out[1]
-    can = canon_tree(tree, pos=cyclic)
     try:
+        can = canon_tree(tree, pos=cyclic)
         got_list = R.expand_ambig(can, cap=5000)
     except R.TooMany:
         ctx.count('skipped-too-many-expansions')
@@ -211,6 +211,11 @@ def run_grammar(ctx, G, family, lexers, inputs, optsets):
                 ctx.count('construction-' + st)
                 continue
             for w in inputs:
+                if cyclic and len(w) > 3:
+                    # the explicit tree of a cyclic grammar grows exponentially with the input (6M nodes at length 4 are
+                    # real): longer inputs would turn the step budget from a termination criterion into a cost limit
+                    ctx.count('cyclic-input-too-long(not run)')
+                    continue
                 run_case(ctx, G, text, rg, l, lexer, opts, w, family, cyclic, named)
     ctx.sample({'grammar': text, 'family': family, 'inputs': inputs[:5], 'cyclic': cyclic})
 
